@@ -36,9 +36,11 @@ use rand::{Rng, SeedableRng};
 use xet_threadpool::ThreadPool;
 
 const BASE_ENV: [(&str, &str); 3] = [("HF_XET_TARGET_CHUNK_SIZE", "8192"), ("HF_XET_MAX_XORB_BYTES", "40960"), ("HF_XET_MAX_XORB_CHUNKS", "8")];
-const CONFIGS: [(&str, &[(&str, &str)]); 2] = [
+const CONFIGS: [(&str, &[(&str, &str)]); 3] = [
     ("A: 8 KiB chunks, xorbs of 40,960 bytes / 8 chunks", &[]),
     ("B: as A, minimum shard size 4096 bytes (several shards per session)", &[("HF_XET_MDB_SHARD_MIN_TARGET_SIZE", "4096")]),
+    // the session shard is flushed to disk every ~1 kB of records while many files are cleaned concurrently
+    ("C: 1 KiB chunks, xorbs of 8192 bytes / 64 chunks, minimum shard size 1024 bytes; 48 files cleaned concurrently", &[("HF_XET_TARGET_CHUNK_SIZE", "1024"), ("HF_XET_MAX_XORB_BYTES", "8192"), ("HF_XET_MAX_XORB_CHUNKS", "64"), ("HF_XET_MDB_SHARD_MIN_TARGET_SIZE", "1024")]),
 ];
 
 // ---------------------------------------------------------------------------------------------------------------------------------
@@ -597,6 +599,109 @@ async fn run_all(tp: Arc<ThreadPool>, cfg_name: String, seed: u64, full: bool) -
     if full {
         if let Some(w) = http_histories(&mut cx, &d).await { return Some(w); }
     }
+    // 5. two endpoints sharing their first 16 characters under one cache root
+    if full {
+        if let Some(w) = endpoint_histories(&mut cx, &a, &x).await { return Some(w); }
+    }
+    None
+}
+
+/// C16 across endpoints: `data_client::default_config` must give endpoints that agree in their first 16 characters separate shard
+/// cache / session directories under one cache root; a session against store B must not deduplicate against shards describing
+/// xorbs that were stored only behind A.
+async fn endpoint_histories(cx: &mut Ctx, a: &FileIn, x: &FileIn) -> Option<String> {
+    use data::data_client::default_config;
+    let root = tempfile::tempdir().unwrap();
+    unsafe { std::env::set_var("HF_XET_CACHE", root.path().join("xet-cache")); }
+    for (k, (ea, eb)) in [("https://cas-server.prod.example.co", "https://cas-server.staging.example.co"), ("http://localhost:8080", "http://localhost:9090"), ("https://cas-server.prod.example.co/", "https://cas-server.prod.example.co")].into_iter().enumerate() {
+        let ctx = format!("config {}; data_client::default_config with HF_XET_CACHE set to one directory, endpoints {ea:?} and {eb:?} (same first 16 characters)", cx.cfg_name);
+        let (ca, cb) = match (default_config(ea.to_string(), None, None, None), default_config(eb.to_string(), None, None, None)) {
+            (Ok(a), Ok(b)) => (a, b),
+            (ra, rb) => return Some(format!("{ctx}: default_config fails: {:?} / {:?}", ra.err().map(|e| e.to_string()), rb.err().map(|e| e.to_string()))),
+        };
+        for (what, da, db) in [
+            ("shard cache directory", &ca.shard_config.cache_directory, &cb.shard_config.cache_directory),
+            ("shard session directory", &ca.shard_config.session_directory, &cb.shard_config.session_directory),
+            ("chunk cache directory", &ca.data_config.cache_config.cache_directory, &cb.data_config.cache_config.cache_directory),
+        ] {
+            if da == db {
+                return Some(format!("{ctx}: both endpoints get the same {what} {da:?}"));
+            }
+        }
+        if k > 1 {
+            continue;
+        }
+        // the same layout with the transport replaced by one local directory per store
+        let (store_a, store_b) = (root.path().join(format!("store-a-{k}")), root.path().join(format!("store-b-{k}")));
+        let with_store = |cfg: Arc<TranslatorConfig>, store: &Path| -> Arc<TranslatorConfig> {
+            std::fs::create_dir_all(store).unwrap();
+            let c = &*cfg;
+            Arc::new(TranslatorConfig {
+                data_config: DataConfig { endpoint: Endpoint::FileSystem(store.to_path_buf()), compression: c.data_config.compression, auth: None, prefix: c.data_config.prefix.clone(), cache_config: CacheConfig { cache_directory: c.data_config.cache_config.cache_directory.clone(), cache_size: 0 }, staging_directory: None },
+                shard_config: ShardConfig { prefix: c.shard_config.prefix.clone(), cache_directory: c.shard_config.cache_directory.clone(), session_directory: c.shard_config.session_directory.clone(), global_dedup_policy: GlobalDedupPolicy::Never, repo_salt: c.shard_config.repo_salt },
+                repo_info: Some(RepoInfo { repo_paths: vec!["".into()] }),
+            })
+        };
+        let ctx = format!("config {}; one machine (cache root HF_XET_CACHE, directories from data_client::default_config), store A behind {ea:?}, store B behind {eb:?}: session 1 uploads '{}' ({} bytes) to A, session 2 uploads '{}' ({}, {} bytes) to B", cx.cfg_name, a.name, a.data.len(), x.name, x.what, x.data.len());
+        let o1 = run_session(with_store(ca.clone(), &store_a), cx.tp.clone(), None, std::slice::from_ref(a), &Fault::None, false).await;
+        if let Some(e) = o1.error { return Some(format!("{ctx}: session 1 fails: {e}")); }
+        let o2 = run_session(with_store(cb.clone(), &store_b), cx.tp.clone(), None, std::slice::from_ref(x), &Fault::None, false).await;
+        if let Some(e) = o2.error { return Some(format!("{ctx}: session 2 fails: {e}")); }
+        if let Err(e) = download_check(&store_a, root.path(), cx.tp.clone(), a, &o1.pointers[0], &mut cx.n_download).await {
+            return Some(format!("{ctx}: every call returned Ok, but from store A: {e}"));
+        }
+        if let Err(e) = download_check(&store_b, root.path(), cx.tp.clone(), x, &o2.pointers[0], &mut cx.n_download).await {
+            return Some(format!("{ctx}: every call returned Ok, but from store B: {e}"));
+        }
+    }
+    None
+}
+
+/// Many cleaners running concurrently in one session while the session shard is flushed to disk again and again (minimum shard
+/// size 1 kB): every file of a session that reports success must be reconstructible.
+async fn concurrent_histories(tp: Arc<ThreadPool>, cfg_name: String, seed: u64) -> Option<String> {
+    let mut cx = Ctx { tp, cfg_name, n_download: 0 };
+    let xorb = *deduplication::constants::MAX_XORB_BYTES;
+    for round in 0..4u64 {
+        let root = tempfile::tempdir().unwrap();
+        let (store, local) = (root.path().join("store"), root.path().join("local"));
+        let files: Vec<FileIn> = (0..48usize).map(|i| FileIn { name: format!("f{i}"), what: "fresh random data".into(), data: Arc::new(random(seed * 1_000_000 + round * 1000 + i as u64 + 1, xorb + xorb / 2 + 17 * i)) }).collect();
+        let ctx = format!("config {}; round {round}: ONE session, 48 files of {}..{} fresh bytes each cleaned by its own concurrently running task (add_data in pieces of 3000 bytes), then finalize", cx.cfg_name, files[0].data.len(), files[47].data.len());
+        let session = match FileUploadSession::new(local_store(&store, &local), cx.tp.clone(), None).await { Ok(s) => s, Err(e) => return Some(format!("{ctx}: FileUploadSession::new fails: {e}")) };
+        let mut tasks = tokio::task::JoinSet::new();
+        for (i, f) in files.iter().cloned().enumerate() {
+            let session = session.clone();
+            tasks.spawn(async move {
+                let mut cleaner = session.start_clean(f.name.clone());
+                for piece in f.data.chunks(3000) {
+                    cleaner.add_data(piece).await.map_err(|e| format!("add_data (file '{}'): {e}", f.name))?;
+                    tokio::task::yield_now().await;
+                }
+                let (p, _m) = cleaner.finish().await.map_err(|e| format!("finish (file '{}'): {e}", f.name))?;
+                Ok::<(usize, PointerFile), String>((i, p))
+            });
+        }
+        let mut pointers: Vec<Option<PointerFile>> = files.iter().map(|_| None).collect();
+        let mut failed: Option<String> = None;
+        while let Some(r) = tasks.join_next().await {
+            match r {
+                Ok(Ok((i, p))) => pointers[i] = Some(p),
+                Ok(Err(e)) => failed = failed.or(Some(e)),
+                Err(e) => failed = failed.or(Some(format!("a cleaning task panicked: {e}"))),
+            }
+        }
+        if let Some(e) = failed { return Some(format!("{ctx}: a session without injected fault fails: {e}")); }
+        if let Err(e) = session.finalize().await { return Some(format!("{ctx}: finalize fails on a healthy store: {e}")); }
+        let mut lost = vec![];
+        for (f, p) in files.iter().zip(&pointers) {
+            if let Err(e) = download_check(&store, root.path(), cx.tp.clone(), f, p.as_ref().unwrap(), &mut cx.n_download).await {
+                lost.push(e);
+            }
+        }
+        if !lost.is_empty() {
+            return Some(format!("{ctx}: every call returned Ok, but {} of the 48 files cannot be reconstructed from the store; first: {}", lost.len(), lost[0]));
+        }
+    }
     None
 }
 
@@ -608,7 +713,8 @@ fn child(idx: usize) -> i32 {
         ("HF_XET_MAX_XORB_CHUNKS", *deduplication::constants::MAX_XORB_CHUNKS as u64),
         ("HF_XET_MDB_SHARD_MIN_TARGET_SIZE", *mdb_shard::constants::MDB_SHARD_MIN_TARGET_SIZE),
     ];
-    for (k, v) in BASE_ENV.iter().chain(env.iter()) {
+    let effective: BTreeMap<&str, &str> = BASE_ENV.iter().chain(env.iter()).map(|(k, v)| (*k, *v)).collect();
+    for (k, v) in effective.iter() {
         if let Some((_, g)) = got.iter().find(|(n, _)| n == k) {
             if g.to_string() != *v {
                 println!("infrastructure: {k}={v} was not picked up by this build (value {g})");
@@ -618,7 +724,11 @@ fn child(idx: usize) -> i32 {
     }
     let seed = std::env::var("VERIF_SEED").ok().and_then(|s| s.parse().ok()).unwrap_or(0u64);
     let tp = Arc::new(ThreadPool::new().expect("runtime"));
-    let r = tp.external_run_async_task(run_all(tp.clone(), cfg_name.to_string(), seed, idx == 0));
+    let r = if idx == 2 {
+        tp.external_run_async_task(concurrent_histories(tp.clone(), cfg_name.to_string(), seed))
+    } else {
+        tp.external_run_async_task(run_all(tp.clone(), cfg_name.to_string(), seed, idx == 0))
+    };
     match r {
         Ok(None) => { println!("no violation found"); 0 },
         Ok(Some(w)) => { println!("WITNESS {w}"); 1 },
